@@ -129,6 +129,7 @@ DEPQ_FACTS = ["{q}.glen >= 0",
             "forall(0, {q}.glen, lambda qi: forall(qi, {q}.glen, lambda qj: {q}.gkeys[qi] >= {q}.gkeys[qj]))",
             "implies({q}.maxlen != 0, {q}.maxlen >= 1 and {q}.glen <= {q}.maxlen)",
             "forall_ref('SearchDataItem', lambda qo: {q}.gcnt[qo] >= 0)",
+            "forall(0, {q}.glen, lambda qi: {q}.gcnt[{q}.gitems[qi]] >= 1)",
             # an item with a positive entry count has an entry (DEPQ's own .items bookkeeping)
             "forall_ref('SearchDataItem', lambda qo: implies({q}.gcnt[qo] >= 1, "
             "exists(0, {q}.glen, lambda qi: {q}.gitems[qi] is qo)))"]
@@ -362,7 +363,7 @@ def refill_post(q, attr):
     """state of a queue right after a refill: exactly the items of the container, each with its current characteristic"""
     return ["%s.glen == self.gn" % q,
             "forall(0, %s.glen, lambda qi: %s and %s.gkeys[qi] == %s.gitems[qi].%s)" % (q, member("%s.gitems[qi]" % q), q, q, attr),
-            "forall(0, self.gn, lambda k: %s.gcnt[self.gseq[k]] >= 1)" % q]
+            "forall(0, self.gn, lambda k: %s.gcnt[self.gseq[k]] == 1)" % q]
 
 
 def sd_queue_contracts(dual=False):
@@ -386,8 +387,9 @@ def sd_queue_contracts(dual=False):
                                # non-empty queue: the first entry, whose queued characteristic is maximal
                                "implies(old(%s.glen) >= 1, result is old(%s.gitems[0]) and %s.glen == old(%s.glen) - 1 and "
                                "forall(0, old(%s.glen), lambda qi: old(%s.gkeys[qi]) <= old(%s.gkeys[0])) and "
-                               "%s.gitems == seq_remove(old(%s.gitems), 0) and %s.gkeys == seq_remove(old(%s.gkeys), 0))"
-                               % ((GQ,) * 11),
+                               "%s.gitems == seq_remove(old(%s.gitems), 0) and %s.gkeys == seq_remove(old(%s.gkeys), 0) and "
+                               "%s.gcnt == seq_store(old(%s.gcnt), result, old(%s.gcnt[result]) - 1))"
+                               % ((GQ,) * 14),
                                # empty queue: refilled first; the result is an item of maximal current characteristic
                                "implies(old(%s.glen) == 0, %s)" % (GQ, member("result")),
                                "implies(old(%s.glen) == 0, %s.glen == self.gn - 1)" % (GQ, GQ),
@@ -396,7 +398,9 @@ def sd_queue_contracts(dual=False):
                                "and %s.gkeys[qi] <= result.globalR))" % ((GQ,) * 5),
                                "implies(old(%s.glen) == 0, forall(0, self.gn, lambda k: self.gseq[k] is result or "
                                "%s.gcnt[self.gseq[k]] >= 1))" % (GQ, GQ),
-                               "implies(old(%s.glen) == 0, forall(0, self.gn, lambda k: self.gseq[k].globalR <= result.globalR))" % GQ],
+                               "implies(old(%s.glen) == 0, forall(0, self.gn, lambda k: self.gseq[k].globalR <= result.globalR))" % GQ,
+                               "implies(old(%s.glen) == 0, forall(0, self.gn, lambda k: %s.gcnt[self.gseq[k]] == "
+                               "(0 if self.gseq[k] is result else 1)))" % (GQ, GQ)],
                            chain=True,
                            doc="C19: a best-interval request returns (and removes) an entry whose queued characteristic is "
                                "maximal; an empty queue is refilled first"))
@@ -421,7 +425,8 @@ def refill_loop(dual=False):
         inv += depq_inv(q)
         inv += ["%s.glen == gj" % q,
                 "forall(0, %s.glen, lambda qi: %s and %s.gkeys[qi] == %s.gitems[qi].%s)" % (q, member("%s.gitems[qi]" % q), q, q, attr),
-                "forall(0, gj, lambda k: %s.gcnt[self.gseq[k]] >= 1)" % q]
+                "forall(0, gj, lambda k: %s.gcnt[self.gseq[k]] == 1)" % q,
+                "forall(gj, self.gn, lambda k: %s.gcnt[self.gseq[k]] == 0)" % q]
     qmods = [GQ + ".gitems", GQ + ".gkeys", GQ + ".glen", GQ + ".gcnt"] + \
             ([LQ + ".gitems", LQ + ".gkeys", LQ + ".glen", LQ + ".gcnt"] if dual else [])
     return LoopSpec(ghost_before=["gj = 0"], ghost_body_end=["gj = gj + 1"], invariant=inv,
